@@ -772,6 +772,8 @@ pub enum Op {
     /// `cache.get_cached::<T>(id).is_some()`: records the dependency like
     /// `cached`, but keeps only the presence in the value
     Peek { ty: Ty, id: String },
+    /// `cache.get_or_insert::<T>(id, T::from_n(n))` (only `N0`, `N1`, `L10t` and `S0`)
+    Insert { ty: Ty, id: String, n: u64 },
     /// `cache.load_owned::<T>(id)` — error becomes part of the value
     Owned { ty: Ty, id: String },
     Contains { ty: Ty, id: String },
@@ -813,6 +815,9 @@ impl Op {
             }
             Op::Peek { ty, id } => {
                 let _ = write!(out, "peek {} {} ", ty.tag(), enc(id));
+            }
+            Op::Insert { ty, id, n } => {
+                let _ = write!(out, "insert {} {} {n} ", ty.tag(), enc(id));
             }
             Op::Contains { ty, id } => {
                 let _ = write!(out, "contains {} {} ", ty.tag(), enc(id));
@@ -918,6 +923,12 @@ fn parse_block(toks: &[&str], pos: &mut usize, nested: bool) -> Result<Vec<Op>, 
                 ops.push(Op::File { id, ext });
             }
             "readdir" => ops.push(Op::ReadDir { id: dec(arg("id")?) }),
+            "insert" => {
+                let ty = Ty::parse(arg("type")?).ok_or("bad type")?;
+                let id = dec(arg("id")?);
+                let n = arg("n")?.parse::<u64>().map_err(|_| "bad n")?;
+                ops.push(Op::Insert { ty, id, n });
+            }
             "load" | "try" | "cached" | "peek" | "owned" | "contains" | "iter" | "itercached" => {
                 let ty = Ty::parse(arg("type")?).ok_or("bad type")?;
                 let id = dec(arg("id")?);
@@ -1372,6 +1383,20 @@ pub fn op_peek(cache: AnyCache, ty: Ty, id: &str) -> bool {
 }
 
 #[inline(never)]
+pub fn op_insert(cache: AnyCache, ty: Ty, id: &str, n: u64) -> V {
+    fn go<T: Storable + Describe + FromN>(cache: AnyCache, id: &str, n: u64) -> V {
+        describe_handle(cache.get_or_insert::<T>(id, T::from_n(n)))
+    }
+    match ty {
+        Ty::Node(0) => go::<Node<0>>(cache, id, n),
+        Ty::Node(1) => go::<Node<1>>(cache, id, n),
+        Ty::Leaf { e: 1, d: 0, h: true } => go::<Leaf<1, 0, true>>(cache, id, n),
+        Ty::Stored(0) => go::<PTok>(cache, id, n),
+        other => panic!("vh: insert op unsupported for {other:?}"),
+    }
+}
+
+#[inline(never)]
 pub fn op_contains(cache: AnyCache, ty: Ty, id: &str) -> bool {
     fn go<T: Storable>(cache: AnyCache, id: &str) -> bool {
         cache.contains::<T>(id)
@@ -1415,6 +1440,7 @@ pub fn run_ops(cache: AnyCache, ops: &[Op]) -> Result<Vec<V>, BoxedError> {
             })),
             Op::Cached { ty, id } => out.push(V::Opt(op_cached(cache, *ty, id).map(Box::new))),
             Op::Peek { ty, id } => out.push(V::Bool(op_peek(cache, *ty, id))),
+            Op::Insert { ty, id, n } => out.push(op_insert(cache, *ty, id, *n)),
             Op::Owned { ty, id } => out.push(V::Res(match op_owned(cache, *ty, id) {
                 Ok(v) => Ok(Box::new(v)),
                 Err(e) => Err(describe_error(&e)),
